@@ -590,6 +590,8 @@ static bool raw_ops(const char* op) {
     OP("sub") { ldB(1, a); ldB(2, b); alias = (int) argi(3); B& r = alias ? a : o; bool c = r.subtract(a, b); stB(r); puti(c); return true; }
     OP("shl1") { ldB(1, a); alias = (int) argi(2); B& r = alias ? a : o; word_t c = r.template shift_left_in_word<1>(a); stB(r); puti((long long) c); return true; }
     OP("shr1") { ldB(1, a); alias = (int) argi(2); B& r = alias ? a : o; word_t c = r.template shift_right_in_word<1>(a); stB(r); puti((long long) (c != 0)); return true; }
+    OP("shl") { ldB(1, a); unsigned amt = (unsigned) argu(2); alias = (int) argi(3); B& r = alias ? a : o; word_t c = r.shift_left(a, amt); stB(r); printf(" %llu", (unsigned long long) c); return true; }
+    OP("shr") { ldB(1, a); unsigned amt = (unsigned) argu(2); alias = (int) argi(3); B& r = alias ? a : o; word_t c = r.shift_right(a, amt); stB(r); printf(" %llu", (unsigned long long) c); return true; }
     OP("mul") { BB w; poison(&w, sizeof w); ldB(1, a); ldB(2, b); w.multiply(a, b); stB(w); return true; }
     OP("sqr") { BB w; poison(&w, sizeof w); ldB(1, a); w.square(a); stB(w); return true; }
     OP("cmp") { ldB(1, a); ldB(2, b); puti(B::compare(a, b)); return true; }
@@ -684,6 +686,7 @@ int main(int argc, char** argv) {
         else if ((s = after(op, "rc."))) ok = recode_ops(s);
         else if ((s = after(op, "raw384."))) ok = raw_ops<384>(s);
         else if ((s = after(op, "raw256."))) ok = raw_ops<256>(s);
+        else if ((s = after(op, "raw128."))) ok = raw_ops<128>(s);
 #ifdef HAVE_X86_ASM
         else if ((s = after(op, "asm."))) ok = asm_ops(s);
 #endif
